@@ -89,8 +89,8 @@ def gen_w(rng, d):
     r = rng.random()
     if r < 0.3:
         return ["none"]
-    if r < 0.65:
-        return ["assign", rng.choice([d, d, 1, 2, 5, 7, -3])]
+    if r < 0.65 or d == U.NONE_D:                    # no arithmetic on a None default
+        return ["assign", rng.choice([d, d, 1, 2, 5, 7, -3, 0])]
     return ["add", rng.choice([0, 1, 2, -1, 4])]
 
 
@@ -98,6 +98,10 @@ def gen_case(rng, kinds, maxlen=10, depths=(1, 2, 2, 3)):
     n = rng.choice(depths)
     d = rng.choice([0, 0, 0, 2])
     shapes = [rng.randint(2, 7) for _ in range(n)]
+    # (default=None is not generated here: maybe_box leaves None unboxed, so a None default handed out by
+    # getPayload / inserted by getPayloadRef is a bare None that cannot be a reference - mutation
+    # histories over None-default tensors are outside what C01-C03 can be asked about; the read-only
+    # properties C05, C08, C12-C15 cover default=None through the NONE_D sentinel)
     tree = U.gen_fiber(rng, n, shapes, d)
     paths = all_paths(tree, n)
     ops = []
@@ -210,7 +214,7 @@ def build_arg(t, depth, d):
     coords = [c for c, _ in t]
     if depth == 1:
         f = Fiber(coords, [dress(s, c) for c, s in t]) if coords else Fiber([], [])
-        f._setDefault(d)
+        f._setDefault(U.dress(d))
     else:
         # interior argument fibers keep whatever default an unowned fiber guesses (a scalar 0 when
         # empty): since the fix of S31 an owned destination no longer copies that guess into its rank
@@ -301,7 +305,7 @@ def pay_obs(p):
         n += 1
     if n != 1:
         return [0, [-2, n]]
-    return [0, p]
+    return [0, U.undress(p)]
 
 
 class SubInt(int):
@@ -314,6 +318,8 @@ def dress(v, salt=0):
     """the value handed to the implementation: every third one as an int subclass (deterministic in the case)"""
     if v is None or isinstance(v, bool) or not isinstance(v, int):
         return v
+    if v == U.NONE_D:
+        return U.dress(v)
     return SubInt(v) if (v + salt) % 3 == 0 else v
 
 
@@ -478,6 +484,7 @@ def run_impl(case):
     # that is not a rejection for coordinate order and that C01-C03 say nothing about)
     est = ((len(json.dumps(case, sort_keys=True)) % 3 == 0) or os.environ.get("STORE_EST") == "1") \
         and _full_depth(case["tree"], n)
+    U.MODE["none_default"] = case["d"] == U.NONE_D
     T = U.build_tensor(case["tree"], n, None if est else [SHAPE] * n, case["d"])
     out = [state_obs(T, n)]
     steps = []
